@@ -145,6 +145,13 @@ func (p *Plan) FaultFree() bool {
 			}
 		}
 	}
+	for _, lr := range p.LogRules {
+		switch lr.Action.Kind {
+		case ActStart, ActStop, ActStopCtx, ActCancelCtx:
+		default:
+			return false
+		}
+	}
 	for _, a := range p.Timeline {
 		switch a.Kind {
 		case ActStart, ActStop, ActStopCtx, ActProbe, ActCancelCtx:
